@@ -116,6 +116,14 @@ pub struct World {
     pub hostile_nsec3: Vec<SRec>,
 }
 
+/// A zone-signing key (flags 256) for a zone that keeps a separate
+/// key-signing key.
+fn make_zsk(owner: &str) -> (SigningKey<Bytes, KeyPair>, Dnskey<Vec<u8>>) {
+    let (secret, dnskey) = domain::crypto::sign::generate(&domain::crypto::sign::GenerateParams::EcdsaP256Sha256, 256).expect("generate key");
+    let pair = KeyPair::from_bytes(&secret, &dnskey).expect("keypair");
+    (SigningKey::new(sname(owner), 256, pair), dnskey)
+}
+
 fn make_key(owner: &str, _seed_byte: u8) -> (SigningKey<Bytes, KeyPair>, Dnskey<Vec<u8>>) {
     // The validator only supports RSA and ECDSA P-256 below a DS (Ed25519
     // delegations are treated as insecure), so the hierarchy uses P-256.
@@ -164,6 +172,13 @@ fn ds_text(owner: &str, dnskey: &Dnskey<Vec<u8>>) -> String {
 }
 
 fn build_zone(apex: &str, text: &str, key: Option<&(SigningKey<Bytes, KeyPair>, Dnskey<Vec<u8>>)>, denial: Denial, inception: u32, expiration: u32) -> ZoneData {
+    build_zone_split(apex, text, key, None, denial, inception, expiration)
+}
+
+/// `ksk`: a separate key-signing key - it is in the DNSKEY RRset next to
+/// `key` (which then signs everything but that RRset), signs the DNSKEY
+/// RRset, and is what the parent's DS record refers to.
+fn build_zone_split(apex: &str, text: &str, key: Option<&(SigningKey<Bytes, KeyPair>, Dnskey<Vec<u8>>)>, ksk: Option<&(SigningKey<Bytes, KeyPair>, Dnskey<Vec<u8>>)>, denial: Denial, inception: u32, expiration: u32) -> ZoneData {
     let mut recs = parse_records(apex, text);
     let apex_name = sname(apex);
     let mut zd = ZoneData {
@@ -184,6 +199,10 @@ fn build_zone(apex: &str, text: &str, key: Option<&(SigningKey<Bytes, KeyPair>, 
         // Apex DNSKEY RRset.
         let dk: Dnskey<Bytes> = Dnskey::new(dnskey.flags(), dnskey.protocol(), dnskey.algorithm(), Bytes::copy_from_slice(dnskey.public_key())).unwrap();
         recs.push(Record::new(apex_name.clone(), Class::IN, Ttl::from_secs(3600), ZoneRecordData::Dnskey(dk)));
+        if let Some((_, kdk)) = ksk {
+            let dk: Dnskey<Bytes> = Dnskey::new(kdk.flags(), kdk.protocol(), kdk.algorithm(), Bytes::copy_from_slice(kdk.public_key())).unwrap();
+            recs.push(Record::new(apex_name.clone(), Class::IN, Ttl::from_secs(3600), ZoneRecordData::Dnskey(dk)));
+        }
         let mut sorted: SortedRecords<SName, SData> = SortedRecords::new();
         for r in recs {
             let _ = sorted.insert(r);
@@ -208,7 +227,8 @@ fn build_zone(apex: &str, text: &str, key: Option<&(SigningKey<Bytes, KeyPair>, 
         let all: Vec<SRec> = sorted.iter().cloned().collect();
         let dnskeys: Vec<SRec> = all.iter().filter(|r| r.rtype() == Rtype::DNSKEY && r.owner() == &apex_name).cloned().collect();
         let rrset = Rrset::new_from_owned(&dnskeys).expect("dnskey rrset");
-        let sig = sign_rrset(skey, &rrset, Timestamp::from(inception), Timestamp::from(expiration)).expect("sign dnskey");
+        // (By the key-signing key where there is one.)
+        let sig = sign_rrset(ksk.map(|k| &k.0).unwrap_or(skey), &rrset, Timestamp::from(inception), Timestamp::from(expiration)).expect("sign dnskey");
         let sig_rec: SRec = Record::new(sig.owner().clone(), sig.class(), sig.ttl(), ZoneRecordData::Rrsig(sig.data().clone()));
         index(&mut zd, all.into_iter().chain(std::iter::once(sig_rec)));
         // Stale signatures from "the previous signing period".
@@ -266,7 +286,10 @@ pub fn build_world(variant: u32, epoch: u32) -> World {
     // empty non-terminal of the tld zone): the walk from the tld's keys to
     // theirs passes a name that is no zone cut.
     let z1_key = make_key("z1.ent.tld.", 5);
-    let z2_key = make_key("z2.ent.tld.", 6);
+    // z2.ent.tld. keeps a key-signing key (what the DS refers to, signs the
+    // DNSKEY RRset only) apart from its zone-signing key.
+    let z2_ksk = make_key("z2.ent.tld.", 6);
+    let z2_key = make_zsk("z2.ent.tld.");
     let island_key = make_key("island.tld.", 7);
     let leaf_denial = match variant % 4 {
         0 => Denial::Nsec,
@@ -288,7 +311,7 @@ pub fn build_world(variant: u32, epoch: u32) -> World {
         ds_text("zone.tld.", &zone_key.1),
         ds_text("evil.tld.", &evil_key.1),
         ds_text("z1.ent.tld.", &z1_key.1),
-        ds_text("z2.ent.tld.", &z2_key.1),
+        ds_text("z2.ent.tld.", &z2_ksk.1),
         "CD".repeat(32)
     );
     let zone_text = "zone.tld. 3600 IN SOA ns.zone.tld. admin.zone.tld. 1 7200 3600 86400 300\n\
@@ -349,7 +372,7 @@ txt.island.tld. 300 IN TXT \"on the island\"\n";
         build_zone("unsigned.tld.", unsigned_text, None, Denial::Nsec, inception, expiration),
         build_zone("evil.tld.", evil_text, Some(&evil_key), Denial::Nsec, inception, expiration),
         build_zone("z1.ent.tld.", z1_text, Some(&z1_key), Denial::Nsec, inception, expiration),
-        build_zone("z2.ent.tld.", z2_text, Some(&z2_key), leaf_denial, inception, expiration),
+        build_zone_split("z2.ent.tld.", z2_text, Some(&z2_key), Some(&z2_ksk), leaf_denial, inception, expiration),
         build_zone("ed.tld.", ed_text, None, Denial::Nsec, inception, expiration),
         build_zone("island.tld.", island_text, Some(&island_key), Denial::Nsec, inception, expiration),
     ];
